@@ -22,7 +22,11 @@
 (*   own    : set of addresses the node knows to be itself                 *)
 (*   np, nr : next announcement, next own-address reset                    *)
 (*   rc     : sequence of [a, tries, to, next]   configured peers          *)
-(* and c its configuration [self, nid, T, ka, adv, key, trusted, claims].  *)
+(*   cache  : set of [a, p, exp]       decision cache / learned addresses  *)
+(*            (a: address bytes), cx: the claims with their ranges as      *)
+(*            bytes [p, r, exp, rb, rl] (for the longest-prefix match)     *)
+(* and c its configuration [self, nid, T, ka, adv, key, trusted, claims,   *)
+(* st (switch timeout), learn, bc].                                        *)
 (* Every function returns the successor state together with the bag of     *)
 (* datagrams the node must emit (as a sequence of <<destination, kind>>).  *)
 (*                                                                         *)
@@ -34,7 +38,7 @@
 (* MC_Cloud.tla closes them with an environment and model-checks the       *)
 (* invariants below.                                                       *)
 (***************************************************************************)
-EXTENDS Integers, Sequences, FiniteSets, Interval
+EXTENDS Integers, Sequences, FiniteSets, Interval, Prefix
 
 SeqSet(q) == {q[i] : i \in 1..Len(q)}
 Addrs(S) == {x.a : x \in S}
@@ -94,7 +98,16 @@ Dedup(q) == LET RECURSIVE go(_, _)
 \* update_peer_info(src, info): refresh, addresses, claims, then dial what the peer lists
 UpdatePeerInfo(s, c, src, info, now) ==
   LET ps == {IF p.a = src THEN [p EXCEPT !.exp = now + c.T, !.addrs = Dedup(<<src>> \o info.addrs)] ELSE p : p \in s.peers}
-      s1 == [s EXCEPT !.peers = ps, !.claims = SetClaims(s.claims, src, SeqSet(info.claims), now, c.T)]
+      \* ClaimTable::set_claims: when a claim of the peer is not announced any more, every decision cached for that peer
+      \* goes; the sweep that follows drops whatever has expired
+      \* (entry by entry: an announcement may list a range twice and the table then holds it twice - cseq is the claims
+      \*  list with multiplicities; an old entry without a partner of its own in the new list counts as withdrawn)
+      CountOld(r) == Cardinality({j \in 1..Len(s.cseq) : s.cseq[j].p = src /\ s.cseq[j].r = r})
+      CountNew(r) == Cardinality({j \in 1..Len(info.claims) : info.claims[j] = r})
+      withdrawn == \/ \E x \in s.claims : x.p = src /\ x.r \notin SeqSet(info.claims)
+                   \/ \E i \in 1..Len(s.cseq) : s.cseq[i].p = src /\ CountOld(s.cseq[i].r) > CountNew(s.cseq[i].r)
+      s1 == [s EXCEPT !.peers = ps, !.claims = SetClaims(s.claims, src, SeqSet(info.claims), now, c.T),
+                      !.cache = {x \in @ : (withdrawn => x.p # src) /\ x.exp >= now}]
   IN ConnectToPeers(s1, c, info.peers)
 
 \* ------------------------------------------------------------------ Connect
@@ -105,7 +118,8 @@ Housekeep(s, c, now) ==
   LET \* 1. peers whose expiry has passed are removed with their claims and re-dialled
       dead == {p \in s.peers : p.exp < now}
       alive == s.peers \ dead
-      s1 == [s EXCEPT !.peers = alive, !.claims = {x \in @ : x.p \notin Addrs(dead) /\ x.exp >= now}]
+      s1 == [s EXCEPT !.peers = alive, !.claims = {x \in @ : x.p \notin Addrs(dead) /\ x.exp >= now},
+                      !.cache = {x \in @ : x.p \notin Addrs(dead) /\ x.exp >= now}]
       redial == {a \in Addrs(dead) : a \notin s.own /\ a \notin Addrs(s.pend)}
       pend1 == s.pend \cup {NewInitiator(a) : a \in redial}
       \* 2. crypto_housekeep: every pending handshake (also the ones just created) repeats its datagram or gives up;
@@ -187,7 +201,8 @@ Recv(s, c, src, isInit, res, info, now) ==
     [] res = "keepalive" ->
          [s |-> [s EXCEPT !.peers = {IF p.a = src THEN [p EXCEPT !.exp = now + c.T] ELSE p : p \in @}], out |-> <<>>]
     [] res = "close" ->
-         [s |-> [s EXCEPT !.peers = {p \in @ : p.a # src}, !.claims = DropClaims(@, src, now)], out |-> <<>>]
+         [s |-> [s EXCEPT !.peers = {p \in @ : p.a # src}, !.claims = DropClaims(@, src, now),
+                          !.cache = {x \in @ : x.p # src /\ x.exp >= now}], out |-> <<>>]
     [] res = "nodeinfo" -> UpdatePeerInfo(s, c, src, info, now)
     [] res \in {"initialized", "initialized-reply"} ->
          LET r == AddNewPeer(s, c, src, info, now) IN
@@ -196,6 +211,28 @@ Recv(s, c, src, isInit, res, info, now) ==
 
 \* how a pending handshake may look after it answered a datagram: unchanged, or restarted as responder
 PendAfterReply(q0, q1) == (q1.st = q0.st /\ q1.r = q0.r) \/ (q1.st = STAGE_PENG /\ q1.r = 0)
+
+\* ------------------------------------------------------------------ data plane (handle_interface_data, handle_payload_from)
+CacheOf(s, a) == {x \in s.cache : x.a = a}
+Covering(s, a) == {x \in s.cx : x.exp >= 0 /\ MatchesBytes(x.rb, x.rl, a)}
+BestClaims(s, a) == {x \in Covering(s, a) : \A y \in Covering(s, a) : y.rl <= x.rl}
+
+\* what may happen to a frame for destination dst read from the interface: the peers it is sent to and the cache
+\* afterwards.  A cached decision is used as it is (the sweep of every housekeeping round removes expired ones);
+\* otherwise the most specific claim containing dst decides (ties: any of them) and the decision is cached until
+\* min(now + switch timeout, expiry of that claim); otherwise all peers (broadcasting modes) or nobody.
+\* A next hop that is not a peer gets nothing (send_msg refuses).
+IfaceOutcomes(s, c, dst, now) ==
+  IF CacheOf(s, dst) # {}
+  THEN {[hops |-> {x.p : x \in CacheOf(s, dst)} \cap Addrs(s.peers), cache |-> s.cache]}
+  ELSE IF BestClaims(s, dst) # {}
+  THEN {[hops |-> {x.p} \cap Addrs(s.peers),
+         cache |-> s.cache \cup {[a |-> dst, p |-> x.p, exp |-> Min2(now + c.st, x.exp)]}] : x \in BestClaims(s, dst)}
+  ELSE {[hops |-> IF c.bc THEN Addrs(s.peers) ELSE {}, cache |-> s.cache]}
+
+\* learning (switch mode): the source address of a delivered frame is reached through the peer it came from
+LearnFrom(s, c, src, fsrc, now) ==
+  IF c.learn THEN {x \in s.cache : x.a # fsrc} \cup {[a |-> fsrc, p |-> src, exp |-> now + c.st]} ELSE s.cache
 
 \* ------------------------------------------------------------------ invariants of a node state (C12, C14, C15)
 NextHopsArePeers(s) == \A x \in s.claims : x.p \in Addrs(s.peers)
